@@ -20,11 +20,14 @@
        tc_annotations_typed are THEOREMS for the agreement teq_rt (identity or bisimilarity of the
        unfoldings, spec/TypEq.v): whatever the typechecker model returns for a closed program is
        typed in the run-time judgement, all 14 forms (proofs/RtTcSound.v, RtTcSoundTop.v, RtTcBisim.v).
-       Premises left, per program: prog_syn_ok p and raw_ok p (two computable conditions on the
-       parsed program — types and names are what the parser and expansion produce — evaluated on
-       every program by the check module) and Topo on the reachable configurations;
-       C01_safety_parsed_partial: for a program that comes out of parse_string, prog_syn_ok is a
-       theorem (proofs/ParseSynOk.v) and only raw_ok is left of the two.
+       Premises left in C01_safety_tc_partial: prog_syn_ok p and raw_ok p (two computable conditions on
+       the AST: types and names are what the parser and expansion produce) and Topo on the reachable
+       configurations.  Both conditions are THEOREMS for parsed programs (C01_parse_raw_ok,
+       proofs/ParseSynOk.v): C01_safety_parsed_partial has no premise but acceptance and Topo.
+       What the run-time judgement needs beyond raw_ok is derived from acceptance (a context entry the
+       body cannot name makes the checker fail; guard providers_not_self, F31).  Programs in which the
+       keyword self is the binder that rebinds the provider (`<x, self> <- recv self; k`) are covered
+       (spec/RtTyping.v: pbinder).
    NOT proved: the non-polarized mode (`safety_statement` quantifies over the three modes), and the
    premise topo_runs / topo_reachable (tested by proofs/TopoCheck.v on every suite run). *)
 From stdpp Require Import gmap strings.
@@ -32,7 +35,7 @@ Require Import Grits.Base Grits.ModeDefs Grits.Modes Grits.STypes Grits.Forms Gr
                Grits.Tc Grits.TcTop Grits.Runtime Grits.spec.RtTyping Grits.spec.Topo
                Grits.proofs.StepErrors Grits.proofs.RtSubst Grits.proofs.RtEffect Grits.proofs.RtSafety
                Grits.proofs.RtInit Grits.proofs.RtTheorems Grits.proofs.RtStaticCheck
-               Grits.spec.SynOk Grits.proofs.RtTcSyn Grits.proofs.RtTcBisim Grits.proofs.RtTheoremsTc.
+               Grits.spec.SynOk Grits.proofs.RtTcSyn Grits.proofs.RtTcBisim Grits.proofs.ParseRaw Grits.proofs.RtTheoremsTc.
 
 Theorem C01_step_error_inv : forall md D F c ch who e,
   step md D F c ch = SError who e <-> step_err md D F c ch who e.
@@ -133,9 +136,12 @@ Theorem C01_safety_tc_partial : forall p p' md,
     exec_run fuel pick md (p_types p') (p_funs p') (init_config p') <> RError c who e.
 Proof. exact safety_tc_partial. Qed.
 
-(* for programs that come out of the parser prog_syn_ok is a theorem (proofs/ParseSynOk.v) *)
+(* for programs that come out of the parser prog_syn_ok and raw_ok are theorems *)
+Theorem C01_parse_raw_ok : forall s p, parse_string s = POk p -> raw_ok p = true.
+Proof. exact parse_raw_ok. Qed.
+
 Theorem C01_safety_parsed_partial : forall txt p p' md,
-  parse_string txt = POk p -> typecheck p = Accept p' -> in_fragment p' -> raw_ok p = true ->
+  parse_string txt = POk p -> typecheck p = Accept p' -> in_fragment p' ->
   (forall md c, is_np md = false -> reachable (p_types p') (p_funs p') md (init_config p') c -> Topo c) ->
   is_np md = false ->
   forall fuel pick c who e,
@@ -195,6 +201,7 @@ Print Assumptions C01_teq_rt_laws.
 Print Assumptions C01_tc_annotations_typed.
 Print Assumptions C01_initial_typed_tc.
 Print Assumptions C01_safety_tc_partial.
+Print Assumptions C01_parse_raw_ok.
 Print Assumptions C01_safety_parsed_partial.
 Print Assumptions C01_syn_premises_sound.
 Print Assumptions C01_examples_syn_ok.
